@@ -153,3 +153,9 @@ def _():
     d = read(scc((300, [RU2, CR, pac(15, 0)] + txt("AB")), (400, [EDM]), (500, [CR] + txt("CD")), (600, [CR, pac(15, 0)] + txt("EF"))))
     got = text_rows(d, 700)
     if got != {14: "CD", 15: "EF"}: return f"roll-up after EDM: {got}, a decoder shows CD on row 14 and EF on row 15"
+
+@witness("C08", "cr-erases-non-rollup-caption")
+def _():
+    d = read(scc((300, [RCL, ENM, pac(15, 0)] + txt("AB") + [EOC]), (400, [CR])))
+    got = text_rows(d, 500)
+    if got != {15: "AB"}: return f"a carriage return in pop-on mode (no effect in CTA-608) leaves {got} of the displayed caption"
